@@ -27,6 +27,7 @@ import GraphiqModel.Proofs.MixtureDMZero
 import GraphiqModel.Proofs.MixtureDMWeights
 import GraphiqModel.Proofs.MixtureDMJointCircuit
 import GraphiqModel.Proofs.MixtureDMPerBranch
+import GraphiqModel.Proofs.MixtureDMTotalMeas
 namespace Graphiq.C06
 open Graphiq Graphiq.Noise Graphiq.DM
 
@@ -429,6 +430,14 @@ theorem same_overlap_with_uniform_measurements (ns : Bool) (ne np nc : Nat) (det
     (hu : s.nonUniform = false) (hW : wThr < Mix.total s.mix) (T : Tab) (hT : T.n = ne + np) :
     ∃ ρ, d.ρ = some ρ ∧ (ρ.mul (stabilizerDensity T)).trace = mixOverlapQ T s.mix :=
   overlap_both_backends_meas ns ne np nc det ops hw s d hs hd hu hW T hT
+
+/-- **both compilers return on the whole measurement class** (runnable measurement-free operations and noiseless
+    `MeasurementZ` / `ClassicalCNOT` / `ClassicalCZ` / `MeasurementCNOTandReset` on existing qubits): the hypotheses "the
+    compile returns" of the theorems above are met by every such circuit, every n -/
+theorem both_compilers_return_with_measurements (ns : Bool) (ne np nc : Nat) (det : Bool) (ops : List COp)
+    (hw : ∀ op ∈ ops, OpRuns2 (ne + np) np op) :
+    (∃ s, compileStab ns ne np nc det ops = .ok s) ∧ (∃ d, compileDM ns ne np nc det ops = .ok d) :=
+  ⟨compileStab_runs2 ns ne np nc det ops hw, compileDM_runs2 ns ne np nc det ops hw⟩
 
 /-- one measurement, Hilbert-space level, all branches random: the per-branch update is `2 Π_o R Π_o` of `R = Σ w_k ρ(T_k)`,
     and both outcomes have probability `(Σ w_k)/2` -/
